@@ -170,6 +170,13 @@ func (e *AffEnv) ofd(v ssa.Value, depth int) Aff {
 		if i, ok := constInt(x); ok {
 			return Aff{K: i}
 		}
+	case *ssa.Phi:
+		// result merge of an inlined helper with one live input (the others travel with an error)
+		if isResultMerge(x) {
+			if c := canon(x); c != ssa.Value(x) {
+				return e.ofd(c, depth+1)
+			}
+		}
 	case *ssa.Convert:
 		if isIntegral(x.Type()) && isIntegral(x.X.Type()) {
 			return e.ofd(x.X, depth+1)
@@ -189,6 +196,36 @@ func (e *AffEnv) ofd(v ssa.Value, depth int) Aff {
 			}
 			if b.isConst() {
 				return a.scale(b.K)
+			}
+			// (k + Σ c_j a_j) * w  for a single atom w: distribute, products become atoms
+			single := func(x Aff) (string, bool) {
+				if x.K != 0 || len(x.T) != 1 {
+					return "", false
+				}
+				for k, c := range x.T {
+					if c == 1 {
+						return k, true
+					}
+				}
+				return "", false
+			}
+			dist := func(w string, x Aff) Aff {
+				out := Aff{T: map[string]int64{}}
+				if x.K != 0 {
+					out.T[w] = x.K
+				}
+				for k, c := range x.T {
+					p := []string{k, w}
+					sort.Strings(p)
+					out.T["("+p[0]+"*"+p[1]+")"] += c
+				}
+				return out
+			}
+			if w, ok := single(b); ok {
+				return dist(w, a)
+			}
+			if w, ok := single(a); ok {
+				return dist(w, b)
 			}
 		}
 	case *ssa.UnOp:
